@@ -126,6 +126,17 @@ let () =
          | _ -> print_endline "EVS 0");
         raise Exit
       end;
+      if !toks.(0) = "W" then begin
+        (* W <lang> <n> node*   ->   W <root_canon with every embedded tree accepted 0|1> *)
+        ignore (next ());
+        let lid = next_n () in
+        let n = next_int () in
+        let roots = rep n p_node in
+        (match get_table main_table lid, roots with
+         | Some l, [root] -> Printf.printf "W %d\n" (if root_canon l (fun _ _ -> true) root then 1 else 0)
+         | _ -> print_endline "W 0");
+        raise Exit
+      end;
       if !toks.(0) = "K" then begin
         (* clause mode:  K <events>   ->   K <first clause violated, every embedded tree accepted> <the same, none accepted>
            (Model/XmlFrontCanonEvents.evs_clause; 0 = evs_canon holds).  For documents the C accepted: the nested parse
